@@ -7,6 +7,7 @@ CONSTANTS
  Variants <- E_one
  NaiveMaxP = 0
  NaiveVariants <- None
+ AccMaxP = 1000
  NbrMaxP = 0
  NbrVariants <- None
  Mode = "elem"
